@@ -49,3 +49,30 @@ def equal(a, b):
     return sympy.simplify(a - b) == 0
   except Exception:
     return False
+
+
+def aliens(expr, vocabulary):
+  """Names of free symbols and of uninterpreted functions in `expr` that are not in `vocabulary` (a set of names)."""
+  out = {str(s_) for s_ in expr.free_symbols if str(s_) not in vocabulary}
+  try:
+    from sympy.core.function import AppliedUndef
+    out |= {a.func.__name__ for a in expr.atoms(AppliedUndef) if a.func.__name__ not in vocabulary}
+  except Exception:
+    pass
+  return sorted(out)
+
+
+def verdict(got, want, vocabulary=(), eq=None):
+  """True: got == want; False: they differ and `got` is a closed term over the vocabulary of `want` (plus `vocabulary`);
+  None: they differ but `got` contains symbols the expansion left unresolved (its meaning is not known)."""
+  same = eq(got, want) if eq is not None else equal(got, want)
+  if same:
+    return True, []
+  voc = {str(s_) for s_ in want.free_symbols} | set(vocabulary)
+  try:
+    from sympy.core.function import AppliedUndef
+    voc |= {a.func.__name__ for a in want.atoms(AppliedUndef)}
+  except Exception:
+    pass
+  al = aliens(got, voc)
+  return (None if al else False), al
